@@ -96,6 +96,9 @@ pub struct WorldCfg {
     pub clock_fails: bool,
     /// use the real Kalman filter (default configuration) behind the recording filter
     pub kalman: bool,
+    /// peers with the same port identity are one sender with different contents: they share
+    /// one Announce sequence counter
+    pub share_seq_by_identity: bool,
 }
 
 impl Default for WorldCfg {
@@ -112,6 +115,7 @@ impl Default for WorldCfg {
             provider_strict: false,
             clock_fails: false,
             kalman: false,
+            share_seq_by_identity: false,
         }
     }
 }
@@ -249,7 +253,16 @@ impl<'a> Run<'a> {
     fn frame_for(&mut self, ev: &Ev) -> Option<(usize, Vec<u8>, bool)> {
         // returns (port, bytes, on event interface)
         Some(match *ev {
-            Ev::Ann(p, k) => (p, self.peers[k].announce(), false),
+            Ev::Ann(p, k) => {
+                let f = self.peers[k].announce();
+                if self.cfg.share_seq_by_identity {
+                    let (pid, next) = (self.peers[k].pid.clone(), self.peers[k].announce_seq);
+                    for q in self.peers.iter_mut().filter(|q| q.pid == pid) {
+                        q.announce_seq = next;
+                    }
+                }
+                (p, f, false)
+            }
             Ev::AnnDup(p, k) => {
                 let s = self.peers[k].announce_seq.wrapping_sub(1);
                 (p, rc::encode(&self.peers[k].announce_msg(s)), false)
